@@ -136,7 +136,7 @@ Qed.
 Lemma api_step_open r a : api_keeps_filter a = true -> n_open (rn r) = 3 -> rq2 r (api_step r a).
 Proof.
   intros Hk Hop. destruct a; try discriminate; cbn [api_step]; rewrite ?(osend_open r _ Hop).
-  6:{ destruct (negb (is_active_node (rn r))); [finr|]. apply send_heartbeat_api_open. exact Hop. }
+  6:{ destruct (negb (is_active_node (rn r)) || negb (n_open (rn r) =? 3)); [finr|]. apply send_heartbeat_api_open. exact Hop. }
   all: crack; finr.
 Qed.
 
